@@ -389,3 +389,8 @@ _reg(Profile(name="fifo_steps", n_steps=(0, 4), n_ranks=(1, 3)))
 _reg(Profile(name="free_overlap", device="free", n_free_kernels=(1, 14), tmax_choices=(4, 6, 10, 20, 60), kernel_causal=False,
              p_launch=0.2, n_ranks=(1, 3), p_kernel_zero=0.12))
 _reg(Profile(name="fifo_tiny", tmax_choices=(4, 6, 8, 12, 20), p_same_ts_as_launch=0.4, n_ranks=(1, 2), p_launch=0.6))
+_reg(Profile(name="comm_overlap", device="free", n_free_kernels=(2, 12), tmax_choices=(4, 6, 10, 16, 30), kernel_causal=False,
+             p_launch=0.2, n_ranks=(1, 3), p_kernel_zero=0.12,
+             kernel_names=("ncclKernel_AllReduce_RING_LL_Sum_float(ncclWorkElem)", "ncclDevKernel_AllGather_RING", "nccl:all_reduceKernel",
+                           "ampere_sgemm_128x64_nn", "elementwise", "ncclFoo", "xMemcpy", "Memcpy DtoD (Device -> Device)", "barSync",
+                           "sm80_xmma_gemm", "ncclKernel_x")))
